@@ -15,6 +15,7 @@ import (
 	"github.com/go-kid/ioc/configure/loader"
 	"gopkg.in/yaml.v3"
 	"verifharness/core"
+	"verifharness/mon"
 	"verifharness/world"
 )
 
@@ -26,7 +27,7 @@ func init() { core.Register(c15{}) }
 func (c15) ID() string    { return "C15" }
 func (c15) Level() string { return "exploration" }
 func (c15) Rule() string {
-	return "seeded sets of 1..5 configuration sources of the kinds raw document, file (written under .work), command-line arguments (loader.NewArgsLoader with generated --app.config=k=v), and harness loaders of the classes ordered / priority-ordered, over key trees (depth <= 3, lower-case keys without dots) with overlapping and disjoint keys and type changes on overlap (scalar<->scalar of another type, scalar<->list, scalar->mapping, mapping->scalar); the sources are installed through every kind of option sequence (SetConfigLoader, AddConfigLoader, SetConfig, singly and combined, in seeded orders). Oracle: an independent deep-merge model (mappings merge recursively, scalars and lists replace) applied in the contract order (priority-ordered by Order, then ordered by Order, then the rest in the order added; SetConfigLoader replaces the list, the adding options append) is compared with App.Get for every leaf path and every subtree, and with prefix-bound fields of a reflect.StructOf holder. non-trivial = >= 2 effective sources with at least one overlapping path; distinct = canonical (sources, option sequence) signature; every sixth case drives a Configure through 2-3 rounds of AddLoaders+Initialize and checks, after each round, every path on which merge-on-top and merge-from-scratch agree; command-line sources address nested sections with dotted keys; every sixth case has 13-32 sources; file sources with lines longer than 64 KiB; empty values, '=' inside values, a missing configured file; command-line values containing commas; file sources fed through a pipe (/proc/self/fd/N)"
+	return "seeded sets of 1..5 configuration sources of the kinds raw document, file (written under .work), command-line arguments (loader.NewArgsLoader with generated --app.config=k=v), and harness loaders of the classes ordered / priority-ordered, over key trees (depth <= 3, lower-case keys without dots) with overlapping and disjoint keys and type changes on overlap (scalar<->scalar of another type, scalar<->list, scalar->mapping, mapping->scalar); the sources are installed through every kind of option sequence (SetConfigLoader, AddConfigLoader, SetConfig, singly and combined, in seeded orders). Oracle: an independent deep-merge model (mappings merge recursively, scalars and lists replace) applied in the contract order (priority-ordered by Order, then ordered by Order, then the rest in the order added; SetConfigLoader replaces the list, the adding options append) is compared with App.Get for every leaf path and every subtree, and with prefix-bound fields of a reflect.StructOf holder. non-trivial = >= 2 effective sources with at least one overlapping path; distinct = canonical (sources, option sequence) signature; every sixth case drives a Configure through 2-3 rounds of AddLoaders+Initialize and checks, after each round, every path on which merge-on-top and merge-from-scratch agree; command-line sources address nested sections with dotted keys; every sixth case has 13-32 sources; file sources with lines longer than 64 KiB; empty values, '=' inside values, a missing configured file; command-line values containing commas; bare flag lists (no program name in front); profile family (a loader whose document depends on what the sources before it contributed); file sources fed through a pipe (/proc/self/fd/N)"
 }
 func (c15) Assumptions() []string {
 	return []string{
@@ -159,7 +160,62 @@ type c15Source struct {
 	label string
 }
 
+// profile: a loader whose document depends on what the sources before it in the sequence contributed (a
+// profile / import style source that reads `app.profile` from the configuration while it is loading): sources
+// are merged one after the other, so it sees them.
+func (p c15) profile(c *core.Ctx) {
+	prof := []string{"prod", "dev", "qa"}[c.Rng.Intn(3)]
+	port := 1 + c.Rng.Intn(9000)
+	cfg := configure.NewConfigure()
+	cfg.SetBinder(binder.NewViperBinder("yaml"))
+	log := mon.NewLifecycle()
+	base := loader.NewRawLoader([]byte(fmt.Sprintf("app:\n  profile: %s\nserver:\n  port: 80\n", prof)))
+	pl := world.NewLoader([]int{0, 0, 1}[c.Rng.Intn(3)], "profile-source", 5, nil, log)
+	pc := pl.Core()
+	pc.Probe = func() {
+		if got := fmt.Sprint(cfg.Get("app.profile")); got == prof {
+			pc.Doc = []byte(fmt.Sprintf("server:\n  port: %d\n  tls: true\n", port))
+		} else {
+			pc.Doc = nil
+		}
+	}
+	var lds []configure.Loader
+	if pl.Core().Ord == 5 && c.Rng.Intn(2) == 0 {
+		// (an ordered profile source precedes the un-ordered base: it cannot see it; keep the base priority-ordered then)
+		lds = []configure.Loader{world.NewLoader(2, "base", 0, []byte(fmt.Sprintf("app:\n  profile: %s\nserver:\n  port: 80\n", prof)), log).(configure.Loader), pl.(configure.Loader)}
+	} else if _, ordered := pl.(interface{ Order() int }); ordered {
+		lds = []configure.Loader{world.NewLoader(2, "base", 0, []byte(fmt.Sprintf("app:\n  profile: %s\nserver:\n  port: 80\n", prof)), log).(configure.Loader), pl.(configure.Loader)}
+	} else {
+		lds = []configure.Loader{base, pl.(configure.Loader)}
+	}
+	cfg.AddLoaders(lds...)
+	var err error
+	func() {
+		defer func() {
+			if r := recover(); r != nil {
+				err = fmt.Errorf("panic: %v", r)
+			}
+		}()
+		err = cfg.Initialize()
+	}()
+	c.AddEvaluations(1)
+	c.Count("profile_source_cases", 1)
+	if err != nil {
+		c.Fail("", fmt.Sprintf("Initialize with a profile source failed: %v", err), nil)
+		return
+	}
+	if got, tls := fmt.Sprint(cfg.Get("server.port")), fmt.Sprint(cfg.Get("server.tls")); got != fmt.Sprint(port) || tls != "true" {
+		c.Fail("", fmt.Sprintf("a source that reads app.profile (supplied by the source before it) while loading contributes server.port=%d / server.tls=true for that profile; the effective configuration has server.port=%s server.tls=%s", port, got, tls), map[string]any{"profile": prof})
+		return
+	}
+	c.Nontrivial(fmt.Sprintf("profile|%s|%d|%T", prof, port, pl))
+}
+
 func (p c15) Run(c *core.Ctx) {
+	if c.Index%12 == 4 {
+		p.profile(c)
+		return
+	}
 	if c.Index%6 == 5 {
 		p.reinit(c)
 		return
@@ -233,6 +289,9 @@ func (p c15) Run(c *core.Ctx) {
 			flat := map[string]any{}
 			flatten("", s.tree, flat)
 			args := []string{"prog", "--other=1"}
+			if c.Rng.Intn(3) == 0 {
+				args = nil // a bare flag list (os.Args[1:], or flags assembled by the caller): every element counts
+			}
 			keys := make([]string, 0, len(flat))
 			for k := range flat {
 				keys = append(keys, k)
